@@ -555,6 +555,8 @@ class Program:
             m.ref_tree for m in changed]
         oracle = Oracle(trees)
         for m in changed:
+            self._restore_vanished_helpers(m, oracle)
+        for m in changed:
             ref_funcs = dict(_top_functions(m.ref_tree))
             redo = False
             for qual, node in _top_functions(m.tree):
@@ -564,17 +566,8 @@ class Program:
                 if ast.dump(ref) == ast.dump(node):
                     continue
                 if equivalent(ref, node, oracle):
-                    new = copy.deepcopy(ref)
                     # positions keep the reference's relative order
-                    off = node.lineno - ref.lineno
-                    for n in ast.walk(new):
-                        if hasattr(n, 'lineno'):
-                            n.lineno = n.lineno + off
-                            if getattr(n, 'end_lineno', None) is not None:
-                                n.end_lineno = n.end_lineno + off
-                    node.args = new.args
-                    node.body = new.body
-                    node.decorator_list = new.decorator_list
+                    self._replace(node, ref)
                     m.normalised.setdefault(
                         'equivalent_to_reference', []).append(qual)
                     redo = True
@@ -582,6 +575,64 @@ class Program:
                 m.funcs.clear()
                 m.classes.clear()
                 m._index()
+
+    def _restore_vanished_helpers(self, m, oracle):
+        """A helper of the reference that today's module no longer has: if
+        every former caller is the same function as the reference caller
+        with the helper inlined, caller and helper are analysed in their
+        reference shape."""
+        from .canon import equivalent
+        from .normalise import scopes, _inline_one, NotInlinable
+        rs, cs = scopes(m.ref_tree), scopes(m.tree)
+        for sc, (rbody, rfuncs) in rs.items():
+            if sc not in cs:
+                continue
+            cbody, cfuncs = cs[sc]
+            for name in [n for n in rfuncs if n not in cfuncs]:
+                trial = copy.deepcopy(m.ref_tree)
+                try:
+                    n = _inline_one(trial, sc, name)
+                except NotInlinable:
+                    continue
+                if not n:
+                    continue
+                before = dict(_top_functions(m.ref_tree))
+                after = dict(_top_functions(trial))
+                callers = [q for q in after if q in before and ast.dump(
+                    after[q]) != ast.dump(before[q])]
+                cur = dict(_top_functions(m.tree))
+                if not callers or not all(
+                        q in cur and equivalent(after[q], cur[q], oracle)
+                        for q in callers):
+                    continue
+                for q in callers:
+                    self._replace(cur[q], before[q])
+                helper = copy.deepcopy(rfuncs[name])
+                off = (cbody[-1].lineno if cbody else 1) - helper.lineno
+                for x in ast.walk(helper):
+                    if hasattr(x, 'lineno'):
+                        x.lineno += off
+                        if getattr(x, 'end_lineno', None) is not None:
+                            x.end_lineno += off
+                cbody.append(helper)
+                m.normalised.setdefault('restored_helpers', []).append(
+                    '%s.%s' % (sc, name) if sc else name)
+                m.funcs.clear()
+                m.classes.clear()
+                m._index()
+
+    @staticmethod
+    def _replace(node, ref):
+        new = copy.deepcopy(ref)
+        off = node.lineno - ref.lineno
+        for n in ast.walk(new):
+            if hasattr(n, 'lineno'):
+                n.lineno = n.lineno + off
+                if getattr(n, 'end_lineno', None) is not None:
+                    n.end_lineno = n.end_lineno + off
+        node.args = new.args
+        node.body = new.body
+        node.decorator_list = new.decorator_list
 
     def module(self, rel):
         if rel not in self.modules:
